@@ -156,7 +156,9 @@ func (t *JitterTicker) Reset(d time.Duration, jitter time.Duration) {
 // erroneous "tick".
 func (t *JitterTicker) Stop() {
 	t.m.Lock()
-	t.timer.Stop()
+	if t.timer != nil {
+		t.timer.Stop()
+	}
 	t.gen++
 	t.timer = nil
 	t.m.Unlock()
